@@ -19,6 +19,65 @@ def plan(tier, seed):
             for i in range(SIZES[tier])]
 
 
+def probe_inside_methods(rec, rnd, files, case_dir, project, res, spec, k):
+    """`self.` typed as the first statement of a method (asked before anything else about the
+    file): every class-level attribute the executed class really has along the source part of
+    its MRO must be offered.  Methods defined inside try/if/for/with blocks of the class body
+    are preferred."""
+    import ast
+    cattrs = res['obs'].get('class_attrs') or {}
+    rel = 'lib.py' if 'lib.py' in files else 'main.py'
+    text = files[rel]
+    lines = text.split('\n')
+    cands = []
+    for cls in ast.parse(text).body:
+        if not isinstance(cls, ast.ClassDef) or cls.name not in cattrs:
+            continue
+        def walk(body, in_flow):
+            for st in body:
+                if isinstance(st, ast.FunctionDef):
+                    # only methods the executed class really has (not the dead branch of an if)
+                    if st.args.args and st.args.args[0].arg == 'self' and not st.decorator_list \
+                            and st.lineno == st.body[0].lineno - 1 \
+                            and (cattrs.get('%lines:' + cls.name) or {}).get(st.name) == st.lineno:
+                        cands.append((cls.name, st, in_flow))
+                elif isinstance(st, (ast.If, ast.For, ast.With, ast.Try, ast.While)):
+                    for part in ('body', 'orelse', 'finalbody'):
+                        walk(getattr(st, part, []) or [], True)
+                    for h in getattr(st, 'handlers', []):
+                        walk(h.body, True)
+        walk(cls.body, False)
+    flow = [c for c in cands if c[2]]
+    plain = [c for c in cands if not c[2]]
+    rnd.shuffle(flow)
+    rnd.shuffle(plain)
+    done = 0
+    for cname, fn, in_flow in flow[:2] + plain[:1]:
+        ins = ' ' * (fn.col_offset + 4) + 'self.'
+        new = '\n'.join(lines[:fn.lineno] + [ins] + lines[fn.lineno:])
+        w = {'case': spec['id'], 'program': k, 'receiver': 'self in %s.%s' % (cname, fn.name),
+             'tag': 'inside_method_in_flow_block' if in_flow else 'inside_method', 'text': new}
+        ok, s = apimon.call(rec, 'Script', jedi.Script, new, path=os.path.join(case_dir, rel),
+                            project=project, witness=w)
+        if not ok:
+            continue
+        with apimon.LimitWatch() as lw:
+            ok, comps = apimon.call(rec, 'complete', s.complete, fn.lineno + 1, len(ins), witness=w)
+        s = None
+        if not ok or lw.hits:
+            continue
+        done += 1
+        rec.ev('c04c:receivers_checked')
+        rec.ev('c04c:self_inside_method_checked')
+        names = cattrs[cname]
+        rec.ev('c04c:attribute_names_expected', len(names))
+        missing = sorted(set(names) - {c.name for c in comps})
+        if missing:
+            rec.violate('c04c:attribute_missing', 'after self. inside %s.%s the class-level attributes %s of '
+                        'the executed class are not offered' % (cname, fn.name, missing), **w)
+    return done
+
+
 def run(spec):
     from vf.driver import digest
     rec = apimon.Recorder()
@@ -41,6 +100,7 @@ def run(spec):
         lines = files['main.py'].split('\n')
         texts.append(files['main.py'])
         project = jedi.Project(case_dir)
+        receivers += probe_inside_methods(rec, rnd, files, case_dir, project, res, spec, k)
         for p in b.probes:
             names = attrs.get(str(p['line']))
             obs = res['obs'].get(str(p['line']))
